@@ -176,9 +176,9 @@ Qed.
 Lemma rows_at_cons tol (b : basis R) bs ts :
   @rows_at R NumR tol (b :: bs) [] [] ts = @basis_row R NumR tol b 0 true (hd 0 ts) :: @rows_at R NumR tol bs [] [] (tl ts).
 Proof.
-  unfold rows_at. cbn [length seq map nth]. f_equal.
-  - destruct ts; reflexivity.
-  - rewrite <- seq_shift, map_map. apply map_ext. intros i. cbn [nth]. rewrite !nth_nil_any.
+  unfold rows_at. cbn [length seq map]. f_equal.
+  - cbn [nth]. destruct ts; reflexivity.
+  - rewrite <- seq_shift, map_map. apply map_ext. intros i. rewrite !nth_nil_any. cbn [nth].
     f_equal. destruct ts; [destruct i|]; reflexivity.
 Qed.
 
@@ -197,7 +197,8 @@ Proof.
   destruct pn as [[t r]|]; cbn [pin_ok] in Hpn.
   - destruct Hpn as [Hv _]. cbn [fill validate hd tl free_of]. rewrite Hv, IH.
     destruct (@validate R NumR tol (free_of pins bs) ts); reflexivity.
-  - cbn [fill validate hd tl free_of]. destruct (@validate1 R NumR tol b (hd 0 ts)) as [t'|e]; [|reflexivity].
+  - cbn [fill validate tl free_of]. change (@n0 R NumR) with 0.
+    destruct (@validate1 R NumR tol b (hd 0 ts)) as [t'|e]; [|reflexivity].
     rewrite IH. destruct (@validate R NumR tol (free_of pins bs) (tl ts)); reflexivity.
 Qed.
 
